@@ -259,6 +259,7 @@ pub fn mix_a(seed: u64, disrupt: bool) -> Scenario {
     }
     s.sched.then = pick(&mut rng, &["random", "random", "random", "fifo", "lifo"]).to_string();
     let pol_ok = |p: &ReadPol| p.release == "now" && !p.idle;
+    // resets, drops and early handle drops do not create circular waits: the run is still cooperative
     s.coop = s.reqs.iter().all(|r| pol_ok(&r.read)) && s.srv.iter().all(|p| pol_ok(&p.read))
         && !s.env.iter().any(|e| matches!(&e.op, EnvOp::Conn { op, n, .. } if op == "initial_window" && *n == 0));
     s
@@ -290,6 +291,263 @@ pub fn by_family(fam: &str, seed: u64) -> Scenario {
     match fam {
         "mixA" => mix_a(seed, false),
         "mixAd" => mix_a(seed, true),
+        "bpReset" => bp_reset(seed),
+        "flowBs" => flow_bs(seed),
+        "flowBc" => flow_bc(seed),
         _ => mix_a(seed, false),
     }
+}
+
+// ---------------------------------------------------------------------------
+// Mode A with back-pressure: several streams with multi-frame bodies, the writer's transport is blocked
+// after k bytes (a frame is left partly written), then at the first quiescence one stream is reset /
+// dropped / ends, then writes are unblocked. Everything else must be unaffected (C17, C01, C06, C16).
+pub fn bp_reset(seed: u64) -> Scenario {
+    let mut rng = StdRng::seed_from_u64(seed ^ 0xB9_5E7);
+    let mut s = Scenario::default();
+    s.name = format!("bpReset-{}", seed);
+    s.mode = "A".into();
+    s.sched.seed = seed;
+    let side = rng.gen_range(0..2); // whose writes are blocked: 0 client (request bodies), 1 server (response bodies)
+    let nreq = rng.gen_range(2..4);
+    let victim = rng.gen_range(0..nreq);
+    let act = rng.gen_range(0..4); // what happens to the victim at q1
+    let victim_op = |rng: &mut StdRng| -> Vec<SendOp> {
+        match act {
+            0 => vec![SendOp::WaitQ { k: 1 }, SendOp::Reset { code: pick(rng, &CODES) }],
+            1 => vec![SendOp::WaitQ { k: 1 }, SendOp::Drop],
+            2 => vec![SendOp::WaitQ { k: 1 }, SendOp::Data { n: 10, eos: true }],
+            _ => vec![SendOp::WaitQ { k: 1 }, SendOp::Reserve { n: 0 }, SendOp::Reset { code: 8 }],
+        }
+    };
+    let big = |rng: &mut StdRng| pick(rng, &[16385usize, 20000, 32768, 40000, 50000]);
+    for i in 0..nreq {
+        let mut r = ReqProg::default();
+        r.tag = i + 1;
+        r.ready = true;
+        r.hid = pick(&mut rng, &[0usize, 1, 3]);
+        if side == 0 {
+            let mut ops = vec![SendOp::Data { n: big(&mut rng), eos: i != victim }];
+            if i == victim {
+                ops.append(&mut victim_op(&mut rng));
+            }
+            r.ops = ops;
+        } else {
+            r.eos = true;
+        }
+        s.reqs.push(r);
+    }
+    if side == 1 {
+        for i in 0..nreq {
+            let mut ops = vec![SendOp::Response { status: 200, hid: 0, eos: false }, SendOp::Data { n: big(&mut rng), eos: i != victim }];
+            if i == victim {
+                ops.append(&mut victim_op(&mut rng));
+            }
+            s.srv.push(SrvProg { ops, read: ReadPol::default(), note: String::new() });
+        }
+    } else {
+        s.srv.push(SrvProg { ops: vec![SendOp::Response { status: 200, hid: 0, eos: true }], read: ReadPol::default(), note: String::new() });
+    }
+    // the peer's receive windows are big enough that only the transport blocks
+    let bigw = EpCfg { iws: Some(1 << 20), conn_win: Some(1 << 22), ..Default::default() };
+    if side == 0 {
+        s.scfg = bigw;
+    } else {
+        s.ccfg = bigw;
+    }
+    // block after the handshake + k bytes; the byte budget is taken at an early step
+    let k = pick(&mut rng, &[100usize, 1000, 9000, 16393 + 9, 16500, 20000, 33000, 40000]);
+    s.env.push(EnvStep { at: "step".into(), n: rng.gen_range(8..14), op: EnvOp::Budget { ep: side, n: Some(k) } });
+    s.env.push(EnvStep { at: "q".into(), n: 2, op: EnvOp::Budget { ep: side, n: None } });
+    s.env.push(EnvStep { at: "q".into(), n: 3, op: EnvOp::Census });
+    s.io.wmax[side] = pick(&mut rng, &[0usize, 0, 1000, 16384, 5000]);
+    s.drop_sr_when_done = true;
+    s.coop = true;
+    s.sched.then = "random".into();
+    s
+}
+
+// ---------------------------------------------------------------------------
+// Mode Bs: real server, scripted client peer. Receive-side flow control (C03): the peer exhausts the
+// server's stream / connection windows exactly, with padded, padding-only and empty frames, on live,
+// reset, refused, unaccepted and closed streams; then waits. The window must come back.
+pub fn flow_bs(seed: u64) -> Scenario {
+    let mut rng = StdRng::seed_from_u64(seed ^ 0xF10B5);
+    let mut s = Scenario::default();
+    s.name = format!("flowBs-{}", seed);
+    s.mode = "Bs".into();
+    s.sched.seed = seed;
+    let iws = pick(&mut rng, &[256u32, 1000, 4096, 16384, 65535]);
+    s.scfg.iws = Some(iws);
+    if rng.gen_bool(0.3) {
+        s.scfg.max_conc = Some(1);
+    }
+    if rng.gen_bool(0.2) {
+        s.scfg.reset_max = Some(pick(&mut rng, &[0usize, 1]));
+    }
+    s.peer_cfg.ack_settings = true;
+    s.peer_cfg.ack_ping = true;
+    s.peer_cfg.grant = "all".into();
+    s.peer_cfg.settings = vec![];
+    let variant = rng.gen_range(0..6);
+    // server application behaviour per accepted stream
+    let rel = "now".to_string();
+    let mut read = ReadPol { release: rel, ..Default::default() };
+    let mut ops = vec![SendOp::Response { status: 200, hid: 0, eos: true }];
+    match variant {
+        1 => read.max_chunks = Some(rng.gen_range(0..2)), // drop the RecvStream early
+        2 => ops = vec![SendOp::Reset { code: pick(&mut rng, &CODES) }], // reset before responding
+        3 => read.drop_head = true,
+        4 => s.srv_no_accept = true,
+        _ => {}
+    }
+    s.srv.push(SrvProg { ops, read, note: String::new() });
+    let nstreams = if s.scfg.max_conc == Some(1) { 2 } else { rng.gen_range(1..3) };
+    let mut steps = vec![PeerStep::WaitQ];
+    let mut conn_left: i64 = 65535;
+    for i in 0..nstreams {
+        let sid = 1 + 2 * i as u32;
+        steps.push(PeerStep::Headers { sid, hid: 0, fields: vec![], eos: false, frag: 0, huff: rng.gen_bool(0.3), status: 0, req: true, method: "POST".into(), tag: sid });
+        // exhaust this stream's window exactly, in frames of assorted shapes
+        let mut left = (iws as i64).min(conn_left);
+        let mut guard = 0;
+        while left > 0 && guard < 40 {
+            guard += 1;
+            let shape = rng.gen_range(0..6);
+            let (n, pad): (usize, Option<u8>) = match shape {
+                0 => (left.min(16384) as usize, None),
+                1 => {
+                    let p = rng.gen_range(0..=255u8).min((left - 1).max(0).min(255) as u8);
+                    ((left - 1 - p as i64).max(0).min(rng.gen_range(0..2000)) as usize, Some(p))
+                }
+                2 => (0, Some(((left - 1).min(255)) as u8)), // padding only
+                3 => (0, Some(0)),
+                4 => (rng.gen_range(1..=left.min(300)) as usize, None),
+                _ => ((left.min(16384) as usize).min(rng.gen_range(1..20000)), None),
+            };
+            let fc = n as i64 + pad.map(|p| 1 + p as i64).unwrap_or(0);
+            if fc == 0 || fc > left {
+                continue;
+            }
+            steps.push(PeerStep::Data { sid, n, eos: false, pad });
+            left -= fc;
+            conn_left -= fc;
+            if rng.gen_bool(0.15) {
+                steps.push(PeerStep::WaitQ);
+            }
+        }
+        steps.push(PeerStep::WaitQ);
+        if variant == 5 {
+            // the peer resets its own stream after filling the window
+            steps.push(PeerStep::Rst { sid, code: pick(&mut rng, &CODES) });
+            steps.push(PeerStep::WaitQ);
+        }
+    }
+    // later: finish the streams properly if still possible (empty DATA with END_STREAM costs nothing)
+    for i in 0..nstreams {
+        let sid = 1 + 2 * i as u32;
+        if variant != 5 {
+            steps.push(PeerStep::Data { sid, n: 0, eos: true, pad: None });
+        }
+    }
+    steps.push(PeerStep::WaitQ);
+    s.peer = steps;
+    s.peer_cfg.grant = "none".into();
+    s.env.push(EnvStep { at: "q".into(), n: 2, op: EnvOp::Census });
+    s
+}
+
+// ---------------------------------------------------------------------------
+// Mode Bc: real client, scripted server peer. Send-side flow control and the capacity API (C02, C16):
+// the peer's SETTINGS / WINDOW_UPDATE patterns are scripted; windows go to 0, negative, back up.
+pub fn flow_bc(seed: u64) -> Scenario {
+    let mut rng = StdRng::seed_from_u64(seed ^ 0xF10BC);
+    let mut s = Scenario::default();
+    s.name = format!("flowBc-{}", seed);
+    s.mode = "Bc".into();
+    s.sched.seed = seed;
+    let unit = 21845u32;
+    let w0 = pick(&mut rng, &[0u32, 1, 100, unit, 2 * unit, 65535, 100000]);
+    s.peer_cfg.settings = vec![(4, w0)];
+    if rng.gen_bool(0.3) {
+        s.peer_cfg.settings.push((5, pick(&mut rng, &[16384u32, 20000, 65536])));
+    }
+    if rng.gen_bool(0.3) {
+        s.peer_cfg.settings.push((3, pick(&mut rng, &[1u32, 2])));
+    }
+    s.peer_cfg.ack_settings = true;
+    s.peer_cfg.ack_ping = true;
+    s.peer_cfg.grant = "none".into();
+    s.peer_cfg.respond = true;
+    if rng.gen_bool(0.3) {
+        s.ccfg.max_send_buf = Some(pick(&mut rng, &[1000usize, 16384, 65536, 1 << 20]));
+    }
+    let nreq = rng.gen_range(1..4);
+    let sizes = [0usize, 1, 100, unit as usize, 2 * unit as usize, 65535, 70000];
+    for i in 0..nreq {
+        let mut r = ReqProg::default();
+        r.tag = i + 1;
+        r.ready = true;
+        let mut ops = vec![];
+        match rng.gen_range(0..5) {
+            0 => ops.push(SendOp::Data { n: pick(&mut rng, &sizes), eos: true }),
+            1 => ops.push(SendOp::DataCap { n: pick(&mut rng, &sizes), eos: true }),
+            2 => {
+                ops.push(SendOp::Reserve { n: pick(&mut rng, &sizes) });
+                ops.push(SendOp::PollCap);
+                ops.push(SendOp::SendCap { eos: false });
+                ops.push(SendOp::WaitQ { k: 2 });
+                ops.push(SendOp::Reserve { n: pick(&mut rng, &sizes) });
+                ops.push(SendOp::WaitQ { k: 3 });
+                ops.push(SendOp::SendCap { eos: true });
+            }
+            3 => {
+                ops.push(SendOp::Reserve { n: pick(&mut rng, &sizes) });
+                ops.push(SendOp::WaitQ { k: 1 });
+                ops.push(SendOp::Reserve { n: 0 });
+                ops.push(SendOp::WaitQ { k: 2 });
+                ops.push(if rng.gen_bool(0.5) { SendOp::Reset { code: 8 } } else { SendOp::Data { n: 5, eos: true } });
+            }
+            _ => {
+                ops.push(SendOp::Data { n: pick(&mut rng, &sizes), eos: false });
+                ops.push(SendOp::WaitQ { k: rng.gen_range(1..4) });
+                ops.push(match rng.gen_range(0..3) { 0 => SendOp::Reset { code: pick(&mut rng, &CODES) }, 1 => SendOp::Drop, _ => SendOp::Data { n: 1, eos: true } });
+            }
+        }
+        r.ops = ops;
+        s.reqs.push(r);
+    }
+    // peer script: at each quiescence one flow-control move
+    let mut steps = vec![];
+    let nsteps = rng.gen_range(2..9);
+    for _ in 0..nsteps {
+        steps.push(PeerStep::WaitQ);
+        let sid = if rng.gen_bool(0.3) { 0 } else { 1 + 2 * rng.gen_range(0..nreq) };
+        match rng.gen_range(0..7) {
+            0 | 1 => steps.push(PeerStep::Wu { sid, inc: pick(&mut rng, &[1u32, 100, unit, 2 * unit, 65535]) }),
+            2 => steps.push(PeerStep::Settings { vals: vec![(4, pick(&mut rng, &[0u32, 1, unit, 2 * unit, 65535, 200000]))] }),
+            3 => {
+                steps.push(PeerStep::Settings { vals: vec![(4, pick(&mut rng, &[0u32, unit, 65535]))] });
+                steps.push(PeerStep::Settings { vals: vec![(4, pick(&mut rng, &[0u32, unit, 3 * unit]))] });
+            }
+            4 => {
+                steps.push(PeerStep::Wu { sid: 0, inc: 65535 });
+                steps.push(PeerStep::Wu { sid, inc: unit });
+            }
+            5 => steps.push(PeerStep::Rst { sid: if sid == 0 { 1 } else { sid }, code: pick(&mut rng, &CODES) }),
+            _ => steps.push(PeerStep::Wu { sid, inc: 70000 }),
+        }
+    }
+    // finally open everything up so that remaining transfers complete
+    steps.push(PeerStep::WaitQ);
+    steps.push(PeerStep::Settings { vals: vec![(4, 1 << 20)] });
+    steps.push(PeerStep::Auto { ack_settings: None, ack_ping: None, grant: Some("all".into()), respond: None });
+    steps.push(PeerStep::Wu { sid: 0, inc: 1 << 20 });
+    steps.push(PeerStep::WaitQ);
+    s.peer = steps;
+    for q in 1..5 {
+        s.env.push(EnvStep { at: "q".into(), n: q, op: EnvOp::Census });
+    }
+    s.drop_sr_when_done = true;
+    s
 }
